@@ -742,6 +742,12 @@ class Exec:
             self.count('skipped_not_representable')
             self.trace.add('skip', i, 'not-representable')
             return
+        # a caller that created its TextIOWrapper write-through may interleave writes to the binary layer underneath
+        # (nothing is ever pending in the text layer of such a stream - unless somebody switches that off)
+        via_buffer = bool(before or after) and sink.raw is not None and bool(self.knobs.get('write_through')) \
+            and op['ctext'].get('n', 0) % 3 != 0
+        if via_buffer:
+            self.count('caller_text_through_binary_layer')
         # caller prepares its stream
         if is_stream:
             try:
@@ -757,7 +763,9 @@ class Exec:
                     sink.state = 'intact'
                 elif not isinstance(sink.obj, PipeText):
                     sink.obj.seek(0, 2)
-                if before:
+                if before and via_buffer:
+                    sink.obj.buffer.write(before.encode('ascii'))   # legal: a write-through stream holds no pending text
+                elif before:
                     sink.obj.write(before)       # not flushed: it may still sit in the caller's text layer when pane is called
             except Exception as e:
                 raise HarnessError(f"caller stream prep failed: {e!r}")
@@ -837,7 +845,10 @@ class Exec:
             sink.docs = []   # pane opens paths with 'w': the previous content is replaced
         if after:
             try:
-                sink.obj.write(after)
+                if via_buffer:
+                    sink.obj.buffer.write(after.encode('ascii'))
+                else:
+                    sink.obj.write(after)
             except Exception as e:
                 raise Violation('caller_stream_unusable', f"caller's stream {sink.name} cannot be written to after an "
                                                           f"acknowledged write: {type(e).__name__}: {mask(str(e))[:120]}")
